@@ -139,7 +139,8 @@ func (_this *Context) AddRecordTypeKey(key recordTypeKey) {
 }
 
 func (_this *Context) EndRecordType() {
-	_this.recordTypes[_this.recordTypeName] = _this.recordType
+	// recordType's backing array is reused for the next record type, so keep a copy.
+	_this.recordTypes[_this.recordTypeName] = append([]recordTypeKey(nil), _this.recordType...)
 	_this.UnstackBuilder()
 }
 
